@@ -32,11 +32,11 @@ VRS = TEXT_VR + DATE_VR + ["UI", "IS", "SQ"]
 
 
 class Elem:
-    def __init__(self, vr, value):
+    def __init__(self, vr, value, keyword="K"):
         self.VR = vr
         self.value = value
         self.VM = len(value) if isinstance(value, list) else (0 if value in (None, "") else 1)
-        self.keyword = "K"
+        self.keyword = keyword
 
 
 def expected(vr, val):
@@ -75,6 +75,13 @@ class Interp:
             return getattr(self.env[e.value.id], e.attr)
         if isinstance(e, (ast.List, ast.Tuple)):
             return [self.ev(x) for x in e.elts]
+        if isinstance(e, ast.Subscript):
+            base = self.ev(e.value)
+            key = self.ev(e.slice)
+            try:
+                return base[key]
+            except Exception:
+                raise AnalysisError(f"build_query: subscript not evaluable: {norm(e)[:50]}")
         if isinstance(e, ast.BoolOp):
             if isinstance(e.op, ast.And):
                 v = True
@@ -220,14 +227,46 @@ def run(repo: Repo, rep: Report, tier: str) -> None:
             break
         if isinstance(s, ast.Assign) and isinstance(s.targets[0], ast.Name) and isinstance(s.value, (ast.List, ast.Tuple)):
             pre[s.targets[0].id] = [e.value for e in s.value.elts if isinstance(e, ast.Constant)]
+    # module-level constant tables the loop body may consult
+    from ..consteval import Evaluator, Unknown as _Unknown
+    cev = Evaluator(repo, db)
+    for nm in {n_.id for n_ in ast.walk(lp) if isinstance(n_, ast.Name)}:
+        if nm in db.assigns and nm not in pre:
+            try:
+                pre[nm] = cev.name(nm)
+            except (_Unknown, Exception):
+                pass
     shapes = [None, "", "ABC", "A*C", "A?C", "2020-2021", "-2021", "1.2.3", ["1.2", "1.3"]]
+    # the supported attributes with the VR the DICOM data dictionary gives them (that is the VR a decoded
+    # element of that keyword has): the matching type must follow *that* VR, wherever the code takes it from
+    points = [(vr, val, "K") for vr, val in itertools.product(VRS, shapes)]
+    attrs = pre.get("_ATTRIBUTES")
+    n_kw = 0
+    if isinstance(attrs, dict):
+        try:
+            from pydicom.datadict import dictionary_VR, tag_for_keyword
+            for kw in attrs:
+                tag = tag_for_keyword(kw)
+                if tag is None:
+                    continue
+                n_kw += 1
+                for val in shapes:
+                    points.append((dictionary_VR(tag), val, kw))
+        except ImportError:
+            rep.defer("pydicom's data dictionary is not importable: the per-keyword dispatch sweep could not run")
+    rep.counters["supported keywords swept with their dictionary VR"] = n_kw
     n = 0
     bad = 0
-    for vr, val in itertools.product(VRS, shapes):
+    for vr, val, kw in points:
         if isinstance(val, list) and vr != "UI":
             continue
+        if kw == "K" and isinstance(attrs, dict):
+            # a synthetic keyword cannot index the attribute table; the keyword sweep covers that code
+            uses_table = any(isinstance(x, ast.Subscript) and norm(x.value) == "_ATTRIBUTES" for x in ast.walk(lp))
+            if uses_table:
+                continue
         env = dict(pre)
-        env[ev_name] = Elem(vr, val)
+        env[ev_name] = Elem(vr, val, kw)
         env.update({"session": "<session>", "query": None})
         it = Interp(env)
         try:
@@ -240,7 +279,7 @@ def run(repo: Repo, rep: Report, tier: str) -> None:
         if len(it.called) > 1 or got != want:
             bad += 1
             if bad <= 6:
-                rep.fail("dispatch", fq, f"VR {vr}, value {val!r} -> {it.called or 'no matching'}", f"PS3.4 C.2.2.2 assigns {want} to a key with VR {vr} and value {val!r}; build_query performs {it.called or 'no matching at all'}", mod=db, node=lp)
+                rep.fail("dispatch", fq, f"{'keyword ' + kw + ', ' if kw != 'K' else ''}VR {vr}, value {val!r} -> {it.called or 'no matching'}", f"PS3.4 C.2.2.2 assigns {want} to a key with VR {vr} and value {val!r}; build_query performs {it.called or 'no matching at all'}", mod=db, node=lp)
     if not bad:
         rep.ok("dispatch", f"{fq} :: {n} (VR, value shape) points", "matching type as PS3.4 C.2.2.2")
     rep.floor("dispatch points", n, 100)
@@ -251,10 +290,12 @@ def run(repo: Repo, rep: Report, tier: str) -> None:
     rep.need(sw is not None, "apps.qrscp.db._search_wildcard vanished")
     fqw = "apps.qrscp.db._search_wildcard"
     sinks = []
+    # the column object(s): names bound from getattr(Instance, ..)
+    cols = {norm(s_.targets[0]) for s_ in walk_no_nested(sw) if isinstance(s_, ast.Assign) and isinstance(s_.value, ast.Call) and dotted(s_.value.func) == "getattr" and s_.value.args and norm(s_.value.args[0]) == "Instance"}
     for c in walk_no_nested(sw):
-        if isinstance(c, ast.Call) and isinstance(c.func, ast.Attribute) and c.func.attr in ("like", "ilike", "contains", "startswith", "endswith", "regexp_match", "match"):
+        if isinstance(c, ast.Call) and isinstance(c.func, ast.Attribute) and c.func.attr in ("like", "ilike", "contains", "startswith", "endswith", "regexp_match", "match") and norm(c.func.value) in cols:
             sinks.append((c.func.attr, c, c.args[0] if c.args else None))
-        if isinstance(c, ast.Call) and isinstance(c.func, ast.Call) and isinstance(c.func.func, ast.Attribute) and c.func.func.attr == "op" and c.func.args and isinstance(c.func.args[0], ast.Constant):
+        if isinstance(c, ast.Call) and isinstance(c.func, ast.Call) and isinstance(c.func.func, ast.Attribute) and c.func.func.attr == "op" and norm(c.func.func.value) in cols and c.func.args and isinstance(c.func.args[0], ast.Constant):
             sinks.append((str(c.func.args[0].value).upper(), c, c.args[0] if c.args else None))
     rep.floor("pattern-matching sinks in _search_wildcard", len(sinks), 1)
     for kind, call, arg in sinks:
@@ -293,6 +334,10 @@ def run(repo: Repo, rep: Report, tier: str) -> None:
             extra = [p for p in chain if p != ("[", "[[]")]
             rep.check(ok and not extra, "wildcard", fqw, f"replacements before GLOB: {chain}", "GLOB has '*' and '?' as its own wildcards and is case-sensitive; the only other special character, '[', must be neutralised ('[[]') and nothing else translated", mod=db, node=st)
             rep.check(non_pn_only or not pn_only, "wildcard", fqw, "GLOB serves the case-sensitive VRs", "GLOB is case-sensitive", mod=db, node=call)
+        elif kind in ("startswith", "endswith", "contains"):
+            kw_ = {k.arg: k.value for k in call.keywords}
+            auto = isinstance(kw_.get("autoescape"), ast.Constant) and kw_["autoescape"].value is True
+            rep.check(auto and pn_only, "wildcard", fqw, st, f"Column.{kind}() compiles to LIKE: in SQLite it is case-insensitive (only PN may be) and, without autoescape=True, '%' and '_' in the key act as wildcards", mod=db, node=call)
         else:
             rep.defer(f"{fqw}: pattern sink {kind} not modelled")
     # empty key -> '*'
